@@ -57,6 +57,25 @@ CHECKS = {
         technique=TECH + '; refinement against an executable reference model, op by op'),
 }
 
+CHECKS['C15'] = dict(
+    engine='driver-sim', design='DESIGN.md §4 C15',
+    text='Whole sessions of the real hephaestus.py (sequential and worker-pool mode) under a '
+         'seeded plan of verdicts, tool failures, compiler crashes, batch shapes, pool schedules '
+         'and clock scripts; an independent decision table, a counter ledger checked after every '
+         'batch, faults.json/stats.json and a directory-tree model decide. Sampled plans.',
+    note='Trusted: the scripted compiler peer is the ground truth; the simulated pool runs a '
+         'task to completion once scheduled. Two genuine defects were repaired (C15-F1, C15-F2).',
+    technique=TECH + '; history check against an independent decision table and directory model')
+CHECKS['C14'] = dict(
+    engine='driver-sim (scripted compiler peer) + real javac', design='DESIGN.md §4 C14',
+    text='Scripted compiler outputs in the four formats with seeded noise, ordering, interleaving, '
+         'filters and stack traces, analysed by the real analyze_compiler_output and compared with '
+         'the peer\'s ground truth; a share of runs uses the real javac on programs with injected '
+         'errors. Sampled outputs.',
+    note='Trusted: the output templates of sim/simcompiler.py (kotlinc, groovyc, scalac are not '
+         'installed); javac 17 is real.',
+    technique=TECH + '; scripted peer with fault injection, ground-truth comparison')
+
 NOT_YET = {
 }
 
